@@ -78,6 +78,14 @@ def run_scenario(sc, chooser=None, seed=0, max_steps=60000):
     old_till = queues.Till
     queues.Till = till_factory
 
+    # the worker's `... or next_push` truth test is a visible step of the model (a timer may fire between the pop and the test)
+    def till_bool(self):
+        v = signals.Signal.__bool__(self)
+        if sched.me() is not None and not sched.abort and sys._getframe(1).f_code.co_name == "worker_bee":
+            sched.emit("m7", "ntest", bool(v))
+        return v
+    RealTill.__bool__ = till_bool
+
     RealSignal = signals.Signal
 
     class WorkerStop(RealSignal):
@@ -172,6 +180,10 @@ def run_scenario(sc, chooser=None, seed=0, max_steps=60000):
         outcome = sched.run()
     finally:
         queues.Till = old_till
+        try:
+            del RealTill.__bool__
+        except Exception:
+            pass
         queues.Queue.__init__ = orig_qinit
         try:
             del queues.ThreadedQueue.pop
@@ -242,6 +254,8 @@ def to_lines(events, sc):
                 lines.append("step newtimer %d" % ev[3])
             elif k == "looptest" and worker:
                 lines.append("step looptest %s" % ("True" if ev[3] else "False"))
+            elif k == "ntest" and worker:
+                lines.append("step ntest %s" % ("True" if ev[3] else "False"))
         elif ev[1] == "W" and ev[3] == "_go":
             tag = ev[2]
             if tag == "WPS":
